@@ -21,12 +21,14 @@ RULE = ("exhaustive: dimensions -1..5 x value containers (list, tuple, ndarray; 
         "category only, malformed forms, CreateWithQuantity with and without the dimension keyword and with the "
         "value/values keywords, CreateEmptyArray, the internal constructor on an object of a class without the "
         "_dimension attribute) x classes (FixedArray, subclasses pinning _dimension to 3 and to 1); every single "
-        "operation (CreateCopy with new values / unit / category, pickle round trip, copy, + - * / with numbers on "
+        "operation (CreateCopy with new values / unit / category, pickle round trip, copy, assignment to the read-only "
+        "properties, + - * / // with numbers on "
         "both sides, with bare ndarrays of length 0..6 on both sides, with Array / FixedArray operands of length "
         "0..6 in m/cm/ft/kg/no unit, ChangingIndex and IndexAsScalar for every index -7..6 and every value form) on "
         "source arrays of dimension 2..4 in three containers and three quantities; seeded random chains of 1..8 "
         "operations over a store of arrays (each step compared on the real pre-state, the whole chain compared "
-        "structurally through the model's history function); Curve constructor and SetImage/SetDomain sequences over arrays of every container shape (flat list / tuple / "
+        "structurally through the model's history function); Curve constructor (positional and keyword forms) and histories of SetImage / SetDomain / SetValues / "
+        "assignment to curve.image and curve.domain / copy / deepcopy, with every read route checked after each step, over arrays of every container shape (flat list / tuple / "
         "1-D ndarray, FixedArray, list or tuple of pairs / triples, 2-D ndarray), exhaustively for all ordered pairs of a "
         "34-array pool and randomly around colliding counts (same number of scalars, other number of points). "
         "distinct = distinct request; non-trivial = the request involves a size decision (a length, a dimension "
@@ -308,7 +310,10 @@ def shape_name(a):
     return "flat" if a.get("w") is None else "points"
 
 
-_PYOP = {"sum": lambda a, b: a + b, "sub": lambda a, b: a - b, "mul": lambda a, b: a * b, "div": lambda a, b: a / b}
+_PYOP = {"sum": lambda a, b: a + b, "sub": lambda a, b: a - b, "mul": lambda a, b: a * b, "div": lambda a, b: a / b,
+         "floordiv": lambda a, b: a // b}
+# properties of a FixedArray without a setter: the only "mutators" one could try
+RO_ATTRS = ("dimension", "values", "unit", "category", "quantity_type")
 
 
 def run_op(src, o, store=None):
@@ -352,6 +357,12 @@ def run_op(src, o, store=None):
         if o.get("quantity") is not None:
             return src.IndexAsScalar(o["index"], mk_qty(o["quantity"]))
         return src.IndexAsScalar(o["index"])
+    if do == "assign":
+        # `array.<attr> = value`: must raise; if it does not, the (possibly changed) source is the outcome
+        value = {"dimension": o.get("n", 5), "values": [0.0] * o.get("n", 5), "unit": "cm", "category": "depth",
+                 "quantity_type": "length"}[o["attr"]]
+        setattr(src, o["attr"], value)
+        return src
     raise ValueError(do)
 
 
@@ -388,6 +399,8 @@ def op_line(o, src_state, src_cls, store_states=None):
         d.update(index=o["index"], value=mv, uvu=o.get("uvu", True))
     elif do == "indexAsScalar":
         d.update(index=o["index"], quantity=qty_line(o.get("quantity")))
+    elif do == "assign":
+        d.update(attr=o["attr"])
     return d
 
 
@@ -536,9 +549,12 @@ def single_op_cases(ctx, rng):
                         for c in ("length", "depth", "mass", "nope"):
                             yield one(dict(do="createCopy", unit=u, category=c))
                     yield one(dict(do="createCopy", category="depth"))
-                    for aop in ("sum", "sub", "mul", "div"):
-                        for left in ((True, False) if aop != "div" else (True,)):
-                            for x in nums(rng, 2, nonzero=True) + ([0] if aop != "div" or kind != K_ND else []):
+                    for attr in RO_ATTRS:
+                        for n in (dim, dim + 1, 1):
+                            yield one(dict(do="assign", attr=attr, n=n))
+                    for aop in ("sum", "sub", "mul", "div", "floordiv"):
+                        for left in ((True, False) if aop not in ("div", "floordiv") else (True,)):
+                            for x in nums(rng, 2, nonzero=True) + ([0] if aop not in ("div", "floordiv") or kind != K_ND else []):
                                 yield one(dict(do="arith", aop=aop, rhs=dict(num=enc(x), left=left)))
                             for n in LENS:
                                 yield one(dict(do="arith", aop=aop, rhs=dict(nd=[enc(float(x)) for x in nums(rng, n, nonzero=True)], left=left)))
@@ -576,13 +592,15 @@ def random_op(rng, store_size):
             o["category"] = "depth"
         return o
     if r < 0.62:
-        aop = rng.choice(("sum", "sub", "sum", "sub", "mul", "div"))
+        aop = rng.choice(("sum", "sub", "sum", "sub", "mul", "div", "floordiv"))
         k = rng.random()
+        if k < 0.04:
+            return dict(do="assign", attr=rng.choice(RO_ATTRS), n=rng.choice((1, 2, 3, 4)))
         if k < 0.3:
-            return dict(do="arith", aop=aop, rhs=dict(num=enc(nums(rng, 1, nonzero=True)[0]), left=(aop == "div" or rng.random() < 0.6)))
+            return dict(do="arith", aop=aop, rhs=dict(num=enc(nums(rng, 1, nonzero=True)[0]), left=(aop in ("div", "floordiv") or rng.random() < 0.6)))
         if k < 0.5:
             n = rng.choice((1, 2, 3, 3, 3, 4, 0))
-            return dict(do="arith", aop=aop, rhs=dict(nd=[enc(float(x)) for x in nums(rng, n, nonzero=True)], left=(aop == "div" or rng.random() < 0.6)))
+            return dict(do="arith", aop=aop, rhs=dict(nd=[enc(float(x)) for x in nums(rng, n, nonzero=True)], left=(aop in ("div", "floordiv") or rng.random() < 0.6)))
         aop = rng.choice(("sum", "sub"))
         if k < 0.75 and store_size > 0:
             return dict(do="arith", aop=aop, rhs=dict(other=rng.randrange(store_size)))
@@ -643,8 +661,15 @@ def curve_cases(ctx, rng, n):
         if i % 4 == 0:  # the earlier flat-only stream
             templates = [(rng.choice((0, 1, 2, 3, 3, 3, 4)), None) for _ in range(6)]
         arrs = [curve_array(rng, rows, w) for rows, w in rng.sample(templates, rng.randint(2, min(6, len(templates))))]
-        ops = [dict(set=rng.choice(("image", "domain")), a=rng.randrange(len(arrs))) for _ in range(rng.randint(0, 10))]
-        yield dict(op="curve", _t=dict(arrs=arrs, image=rng.randrange(len(arrs)), domain=rng.randrange(len(arrs)), ops=ops))
+        ops = []
+        for _ in range(rng.randint(0, 10)):
+            if rng.random() < 0.08:
+                ops.append(dict(copy=rng.choice(("copy", "deepcopy"))))
+                continue
+            which = rng.choice(("image", "domain"))
+            ops.append(dict(set=which, via=rng.choice(CURVE_VIAS[which]), a=rng.randrange(len(arrs))))
+        yield dict(op="curve", _t=dict(arrs=arrs, image=rng.randrange(len(arrs)), domain=rng.randrange(len(arrs)), ops=ops,
+                                       ctor=rng.choice(CURVE_CTORS)))
 
 
 def curve_grid_cases(ctx):
@@ -670,8 +695,16 @@ def curve_grid_cases(ctx):
     for base in (2, 4):
         for a in range(len(pool)):
             arrs = [curve_array(rng, base, None, K_LIST, fixed=False), curve_array(rng, base, None, K_ND, fixed=False), pool[a]]
-            yield dict(op="curve", _t=dict(arrs=arrs, image=0, domain=1, ops=[dict(set="image", a=2), dict(set="domain", a=2),
-                                                                             dict(set="image", a=0), dict(set="domain", a=2)]))
+            # every route x this array, on a fresh valid curve each (so a wrongly accepted array cannot hide the next
+            # route), then one mixed history through all routes and a copy
+            for which in ("image", "domain"):
+                for via in CURVE_VIAS[which]:
+                    yield dict(op="curve", _t=dict(arrs=arrs, image=0, domain=1, ctor=CURVE_CTORS[(a + base) % 3],
+                                                   ops=[dict(set=which, via=via, a=2)]))
+            yield dict(op="curve", _t=dict(arrs=arrs, image=0, domain=1, ops=[
+                dict(set="image", via="attr", a=2), dict(set="domain", via="attr", a=2), dict(copy="copy"),
+                dict(set="image", via="values", a=0), dict(set="domain", via="method", a=2), dict(copy="deepcopy"),
+                dict(set="image", via="method", a=2), dict(set="domain", via="attr", a=1)]))
 
 
 def setup(ctx):
@@ -794,22 +827,104 @@ def impl(c, ctx):
     return dict(err="other", detail="unknown case")
 
 
-def run_curve(t):
+# every public route that puts an array into a Curve: the setter methods, the deprecated SetValues (image only)
+# and assignment to the `image` / `domain` properties (built from the setter methods)
+CURVE_VIAS = {"image": ("method", "attr", "values"), "domain": ("method", "attr")}
+CURVE_CTORS = ("pos", "kw", "kw_rev")
+
+
+def new_curve(t, arrs):
     from barril.curve.curve import Curve
 
+    image, domain = arrs[t["image"]], arrs[t["domain"]]
+    ctor = t.get("ctor", "pos")
+    if ctor == "kw":
+        return Curve(image=image, domain=domain)
+    if ctor == "kw_rev":
+        return Curve(domain=domain, image=image)
+    return Curve(image, domain)
+
+
+def apply_setter(c, o, a):
+    import warnings
+
+    via = o.get("via", "method")
+    if o["set"] == "image":
+        if via == "attr":
+            c.image = a
+        elif via == "values":
+            with warnings.catch_warnings():
+                warnings.simplefilter("ignore")
+                c.SetValues(a)
+        else:
+            c.SetImage(a)
+    elif via == "attr":
+        c.domain = a
+    else:
+        c.SetDomain(a)
+
+
+def setter_name(o):
+    via = o.get("via", "method")
+    if via == "attr":
+        return "curve.%s = x" % o["set"]
+    return "SetValues" if via == "values" else "Set%s" % o["set"].capitalize()
+
+
+def curve_reads(c):
+    """Every way of reading a Curve must show the arrays it holds; returns the list of problems."""
+    import warnings
+
+    out = []
+    try:
+        if c.image is not c.GetImage():
+            out.append("curve.image is not GetImage()")
+        if c.domain is not c.GetDomain():
+            out.append("curve.domain is not GetDomain()")
+        with warnings.catch_warnings():
+            warnings.simplefilter("ignore")
+            if c.GetValues() is not c.GetImage():
+                out.append("GetValues() is not GetImage()")
+        if c.GetLength() != len(c.GetImage().GetValues()):
+            out.append("GetLength() is %r for an image of %d points" % (c.GetLength(), len(c.GetImage().GetValues())))
+    except Exception as e:  # noqa
+        out.append("reading the curve raised %r" % (e,))
+    return out
+
+
+def copy_curve(c, how):
+    """copy.copy / copy.deepcopy of a Curve: a new Curve holding the very same arrays (arrays copy as themselves)"""
+    c2 = copy.copy(c) if how == "copy" else copy.deepcopy(c)
+    problems = []
+    if c2 is c:
+        problems.append("the copy is the curve itself")
+    if c2.GetImage() is not c.GetImage() or c2.GetDomain() is not c.GetDomain():
+        problems.append("the copy does not hold the arrays of the original")
+    return c2, problems
+
+
+def run_curve(t):
     arrs = [mk_curve_array(a) for a in t["arrs"]]
     ids = {id(a): i for i, a in enumerate(arrs)}
-    c, e = attempt(lambda: Curve(arrs[t["image"]], arrs[t["domain"]]))
+    c, e = attempt(lambda: new_curve(t, arrs))
     if e is not None:
         return dict(new=err_kind(e), steps=[])
     steps = []
     for o in t["ops"]:
+        if "copy" in o:
+            res, e = attempt(lambda: copy_curve(c, o["copy"]))
+            if e is not None:
+                steps.append(dict(copy=o["copy"], problems=["copying raised %r" % (e,)]))
+                continue
+            c, problems = res
+            steps.append(dict(copy=o["copy"], problems=problems + curve_reads(c)))
+            continue
         a = arrs[o["a"]]
-        _, e = attempt(lambda: (c.SetImage(a) if o["set"] == "image" else c.SetDomain(a)))
+        _, e = attempt(lambda: apply_setter(c, o, a))
         steps.append(dict(res="ok" if e is None else err_kind(e), image=str(ids.get(id(c.GetImage()), -1)),
                           domain=str(ids.get(id(c.GetDomain()), -1)), ilen=str(len(c.GetImage().GetValues())),
-                          dlen=str(len(c.GetDomain().GetValues()))))
-    return dict(new="ok", steps=steps)
+                          dlen=str(len(c.GetDomain().GetValues())), reads=curve_reads(c)))
+    return dict(new="ok", steps=steps, reads=curve_reads(c) if not t["ops"] else [])
 
 
 def model_line(c):
@@ -820,7 +935,7 @@ def model_line(c):
         def carr(i):
             return dict(id=i, len=points_of(t["arrs"][i]), w=t["arrs"][i].get("w"))
         return dict(op="curve", image=carr(t["image"]), domain=carr(t["domain"]),
-                    ops=[dict(set=o["set"], a=carr(o["a"])) for o in t["ops"]])
+                    ops=[dict(set=o["set"], a=carr(o["a"])) for o in t["ops"] if "set" in o])
     chain = t if c["op"] == "chain" else dict(cmds=[dict(make=t["src"]), dict(src=0, o=t["o"])])
     steps = _TRACE.pop(c.get("cid", -1), None)
     if steps is None:
@@ -932,6 +1047,8 @@ def _op_key(o):
         return "changingIndex %s use_value_unit=%s index%s0" % (kind, o.get("uvu", "default"), "<" if o["index"] < 0 else ">=")
     if do == "indexAsScalar":
         return "indexAsScalar quantity=%s index%s0" % ("no" if o.get("quantity") is None else "yes", "<" if o["index"] < 0 else ">=")
+    if do == "assign":
+        return "assign array.%s = ..." % o["attr"]
     return do
 
 
@@ -965,11 +1082,14 @@ def _count(ctx, c, io):
                                                    "same" if scalars(a) == scalars(b) else "other")
 
         ai, ad = t["arrs"][t["image"]], t["arrs"][t["domain"]]
-        hit("Curve(%s) -> %s" % (rel(ai, ad), "ok" if io.get("new") == "ok" else "err:%s" % io.get("new")))
+        hit("Curve(%s) %s -> %s" % (rel(ai, ad), t.get("ctor", "pos"), "ok" if io.get("new") == "ok" else "err:%s" % io.get("new")))
         if io.get("new") == "ok":
             for o, s in zip(t["ops"], io.get("steps", [])):
-                hit("curve: Set%s(%s) -> %s" % (o["set"].capitalize(), shape_name(t["arrs"][o["a"]]),
-                                                s["res"] if s["res"] == "ok" else "err:" + s["res"]))
+                if "copy" in o:
+                    hit("curve: %s -> %s" % (o["copy"], "ok" if not s.get("problems") else "problem"))
+                    continue
+                hit("curve: %s (%s) -> %s" % (setter_name(o), shape_name(t["arrs"][o["a"]]),
+                                              s["res"] if s["res"] == "ok" else "err:" + s["res"]))
 
 
 def agree(c, io, mo, ctx):
@@ -1035,11 +1155,17 @@ def agree(c, io, mo, ctx):
     if c["op"] == "curve":
         if io.get("new") != mo.get("new"):
             return "Curve(): impl %s model %s" % (io.get("new"), mo.get("new"))
-        if len(io["steps"]) != len(mo["steps"]):
+        if io.get("reads"):
+            return "reading the new curve: %s" % io["reads"]
+        for i, st in enumerate(io["steps"]):
+            if st.get("problems") or st.get("reads"):
+                return "curve step %d (%s): %s" % (i, st.get("copy", "setter"), st.get("problems") or st.get("reads"))
+        setters = [st for st in io["steps"] if "copy" not in st]   # copies are no transition of the model
+        if len(setters) != len(mo["steps"]):
             return "number of steps differs"
-        for i, (a, b) in enumerate(zip(io["steps"], mo["steps"])):
-            if a != b:
-                return "curve step %d: impl %s model %s" % (i, a, b)
+        for i, (a, b) in enumerate(zip(setters, mo["steps"])):
+            if {k: a[k] for k in b} != b:
+                return "curve setter %d: impl %s model %s" % (i, a, b)
         return None
     return "unknown case kind"
 
@@ -1312,10 +1438,10 @@ def _check_chain(t):
 
 
 def _check_curve(t):
-    """A Curve never holds an image and a domain with different numbers of points, whatever their containers; the
-    number of points of every array is known from its construction and the held arrays are recognised by identity."""
-    from barril.curve.curve import Curve
-
+    """A Curve never holds an image and a domain with different numbers of points, whatever their containers and
+    whatever route an array comes in by (constructor forms, SetImage / SetDomain / SetValues, assignment to the
+    `image` / `domain` properties, copies); the number of points of every array is known from its construction and
+    the held arrays are recognised by identity."""
     arrs = [mk_curve_array(a) for a in t["arrs"]]
     npts = {id(obj): points_of(a) for obj, a in zip(arrs, t["arrs"])}
     shapes = {id(obj): "%s[%d]" % (shape_name(a) + ("x%d" % a["w"] if a.get("w") else ""), points_of(a)) for obj, a in zip(arrs, t["arrs"])}
@@ -1327,19 +1453,36 @@ def _check_curve(t):
         return npts[id(i)], npts[id(d)]
 
     li, ld = npts[id(arrs[t["image"]])], npts[id(arrs[t["domain"]])]
-    what = "Curve(%s, %s)" % (shapes[id(arrs[t["image"]])], shapes[id(arrs[t["domain"]])])
-    c, e = attempt(lambda: Curve(arrs[t["image"]], arrs[t["domain"]]))
+    what = "Curve(%s, %s) [%s]" % (shapes[id(arrs[t["image"]])], shapes[id(arrs[t["domain"]])], t.get("ctor", "pos"))
+    c, e = attempt(lambda: new_curve(t, arrs))
     if e is not None:
         if li != ld and isinstance(e, ValueError):
             return None
         return dict(clause="Curve(image, domain) fails only for different lengths, with ValueError", call=what, points=(li, ld), observed=repr(e))
     if li != ld:
         return dict(clause="a Curve never holds an image and a domain of different lengths", at="constructor", call=what, points=(li, ld))
+    if held_points(c) != (li, ld) or c.GetImage() is not arrs[t["image"]] or c.GetDomain() is not arrs[t["domain"]]:
+        return dict(clause="a Curve holds the arrays it was given", at="constructor", call=what)
+    bad = curve_reads(c)
+    if bad:
+        return dict(clause="curve.image / curve.domain / GetLength() show what GetImage() / GetDomain() hold", at="constructor", call=what, observed=bad)
     for pos, o in enumerate(t["ops"]):
+        if "copy" in o:
+            res, e = attempt(lambda: copy_curve(c, o["copy"]))
+            if e is not None:
+                return dict(clause="a Curve can be copied", at=pos, op=o, observed=repr(e))
+            c2, problems = res
+            pts = held_points(c2)
+            if pts is None or pts[0] != pts[1] or problems:
+                return dict(clause="a Curve never holds an image and a domain of different lengths", at=pos, op=o, points=pts,
+                            observed=problems or "the copy holds other arrays")
+            c = c2
+            continue
         a = arrs[o["a"]]
         held = (c.GetImage(), c.GetDomain())
-        call = "Set%s(%s) on a curve holding (%s, %s)" % (o["set"].capitalize(), shapes[id(a)], shapes.get(id(held[0])), shapes.get(id(held[1])))
-        _, e = attempt(lambda: (c.SetImage(a) if o["set"] == "image" else c.SetDomain(a)))
+        want_ok = npts[id(a)] == (npts[id(held[1])] if o["set"] == "image" else npts[id(held[0])])
+        call = "%s with %s on a curve holding (%s, %s)" % (setter_name(o), shapes[id(a)], shapes.get(id(held[0])), shapes.get(id(held[1])))
+        _, e = attempt(lambda: apply_setter(c, o, a))
         pts = held_points(c)
         if pts is None:
             return dict(clause="a Curve holds the arrays it was given", at=pos, op=o, call=call)
@@ -1351,6 +1494,11 @@ def _check_curve(t):
                 return dict(clause="a rejected setter raises ValueError", at=pos, op=o, call=call, observed=repr(e))
             if c.GetImage() is not held[0] or c.GetDomain() is not held[1]:
                 return dict(clause="a rejected setter leaves the curve unchanged", at=pos, op=o, call=call)
+        elif not want_ok:
+            return dict(clause="an array of another length is rejected with ValueError and leaves the curve unchanged", at=pos, op=o, call=call)
+        bad = curve_reads(c)
+        if bad:
+            return dict(clause="curve.image / curve.domain / GetLength() show what GetImage() / GetDomain() hold", at=pos, op=o, call=call, observed=bad)
     return None
 
 
